@@ -96,7 +96,8 @@ def grid_case(rng, shape, axis="x", steps_u=None, nphases=1, not_indexed=0.0, ma
 
 
 def prop(rng, name, dtype, n, pk=0, kind=None):
-    m = n * max(pk, 1)
+    tail = tuple(pk) if isinstance(pk, (list, tuple)) else ((int(pk),) if pk else ())
+    m = n * int(np.prod(tail, dtype=int)) if tail else n
     kind = kind or ["unit", "large", "signed", "small"][int(rng.integers(4))]
     if dtype == "bool":
         vals = [bool(b) for b in rng.integers(0, 2, size=m)]
@@ -116,7 +117,7 @@ def prop(rng, name, dtype, n, pk=0, kind=None):
         if dtype == "float16":
             v = np.clip(v, -6e4, 6e4)
         vals = [float(x) for x in np.asarray(v, dtype=dtype).astype(float)]
-    return {"name": name, "dtype": dtype, "k": int(pk), "vals": vals}
+    return {"name": name, "dtype": dtype, "k": [int(x) for x in pk] if isinstance(pk, (list, tuple)) else int(pk), "vals": vals}
 
 
 def coords(case):
@@ -166,7 +167,8 @@ def build(case):
     props = {}
     for pr in case["props"]:
         a = np.array(pr["vals"], dtype=pr["dtype"])
-        props[pr["name"]] = a.reshape((n, pr["k"])) if pr["k"] else a
+        tail = tuple(pr["k"]) if isinstance(pr["k"], (list, tuple)) else ((pr["k"],) if pr["k"] else ())
+        props[pr["name"]] = a.reshape((n,) + tail) if tail else a
     kw = {}
     if "scan_unit" in case:
         kw["scan_unit"] = case["scan_unit"]
